@@ -306,6 +306,7 @@ package compactindex
 
 //@ func sortWithCompare
 //@   mode int
+//@   fnpure compare
 //@   requires compare != nil && len(a) <= 2305843009213693952
 //@   modifies a
 //@   use szRoot(len(a)) && unfold(lo(len(a), 1))
